@@ -166,6 +166,10 @@ def run_property(pid, tier, only_rule=None):
     facts = {cfg: {k: Facts(p) for k, p in d.items()} for cfg, d in paths.items()}
     ctx = Ctx(pid, tier, facts, thash)
     ctx.only_rule = only_rule
+    for cfg, d in facts.items():
+        for k, f in d.items():
+            for new, old in sorted(getattr(f, "renamed", {}).items()):
+                ctx.note(f"[{k}/{cfg}] private function {new} is analysed under its former name {old} (same module, same signature, old name gone)")
     mod.run(ctx)
     if tier == "thorough" and not getattr(mod, "HANDLES_CONFIGS", False):
         # the same rules on every other feature configuration (sync analysed modulo Arc -> Rc)
